@@ -96,6 +96,13 @@ def lvalue(eng, node, st):
                 name = node.attr
                 if eng.field_decl(o.ty.cls, name) is None and name.startswith("__") and eng.cur_class:
                     name = "_%s%s" % (eng.cur_class, name)
+                if eng.field_decl(o.ty.cls, name) is None:
+                    # a property whose getter is `return self.<field>` (for every concrete subclass): the path denotes the
+                    # object held in that field, so in-place operations through it act on the field's value
+                    pf = eng.table.resolve(o.ty.cls, name) if o.ty.cls in eng.table.classes else None
+                    gf = getter_field(eng, o.ty.cls, name) if pf is not None and pf.is_property else None
+                    if gf is not None:
+                        name = gf[1]
                 outs.append((s, AttrLV(o, name)))
         return outs
     if isinstance(node, ast.Subscript):
